@@ -36,6 +36,8 @@ var c10NameSets = [][]string{
 	{"a.bin", "b.bin", "c.bin", "d.bin"},
 	{"plain.txt", "café.bin", "文件.dat", "\U0001F600x\U00010348.bin"},
 	{"with space", "UPPER.TXT", "x", "\U0001F4BEdisk"},
+	{"a", "b", "c", "d"}, // every name exactly one UTF-16 code unit: the smallest possible entries
+	{"世", "界", "x", "y"},
 }
 
 func c10WriteDir(c *c10Case, r *core.Rec) {
@@ -296,7 +298,7 @@ func c10Gen(g *core.Gen) {
 					return
 				}
 				for _, v := range []int{1, 2, 3, 10} {
-					g.Emit(&c10Case{Dir: "write", Sizes: append([]int{}, cur...), Names: c10NameSets[(nf+v+cur[0])%3][:nf], Volumes: v})
+					g.Emit(&c10Case{Dir: "write", Sizes: append([]int{}, cur...), Names: c10NameSets[(nf+v+cur[0])%len(c10NameSets)][:nf], Volumes: v})
 				}
 				return
 			}
@@ -354,7 +356,15 @@ func c10Gen(g *core.Gen) {
 							vg = append(vg, k+1)
 						}
 					}
-					g.Emit(&c10Case{Dir: "read", Status: st, Comment: (code + mask + vm) % 4, NameSet: (code + vm) % 3, Missing: miss, VolGone: vg, DC: (mask+vm)%2 == 1})
+					g.Emit(&c10Case{Dir: "read", Status: st, Comment: (code + mask + vm) % 4, NameSet: (code + vm) % len(c10NameSets), Missing: miss, VolGone: vg, DC: (mask+vm)%2 == 1})
+					if mask == 0 && vm == 0 {
+						// the untouched set with every name set and every comment kind
+						for ns := 0; ns < len(c10NameSets); ns++ {
+							for cm := 0; cm < 4; cm++ {
+								g.Emit(&c10Case{Dir: "read", Status: st, Comment: cm, NameSet: ns})
+							}
+						}
+					}
 				}
 			}
 			// a volume with wrong parity but valid hashes
